@@ -121,12 +121,15 @@ _p("C07", "proof",
 _p("C08", "proof",
    "Proved (Props/C08.v) for every well-formed log/storage state: nextCommittedEnts returns nothing while paused or while a snapshot is pending, "
    "otherwise consecutive entries starting right after the applying cursor, within commit, and (async) below the unstable offset; batches respect "
-   "the size budget up to one entry. Exactly-once across Ready/Advance interleavings is monitored on every schedule.",
+   "the size budget up to one entry; the entries handed out are the logical log's entries at applying+1.. (C08_handout_is_the_logical_log). "
+   "Exactly-once across Ready/Advance interleavings is monitored on every schedule.",
    ["well-formedness of storage and unstable log (consecutive indexes), established by C18's theorems"])
 _p("C09", "proof",
    "Proved (Props/C09.v): restore never lowers commit, returns false without touching the unstable log when index <= commit / not in the "
    "snapshot's membership / (index, term) already matches, restores only as follower; the response is a promise message (withheld until "
-   "persistence). 'Every snapshot a leader sends is a committed prefix' and 'no fork' are monitored.", [])
+   "persistence); an accepted snapshot leaves exactly its index, term and membership as the new log base "
+   "(C09_restore_installs_exactly_the_snapshot). 'Every snapshot a leader sends is a committed prefix', 'no fork' and 'the log base never moves "
+   "back' are monitored.", [])
 _p("C10", "proof",
    "Proved (Props/C10.v): the propose-time gate (a change survives only if pendingConfIndex <= applied, the joint/leave shape fits and the "
    "current configuration accepts it in a dry run of the Changer on the decoded payload -- the F6 repair, C10_unacceptable_change_refused --, "
@@ -180,7 +183,9 @@ _p("C16", "proof",
    "Proved (Props/C16.v): limitSize / raftLog.slice / entries return within the budget or a single entry, for every log and storage; every MsgApp "
    "queued by maybeSendAppend respects MaxSizePerMsg or carries one entry and nothing is sent in StateSnapshot; the uncommitted-size rule "
    "(exact refusal condition, refusal changes nothing); Inflights never exceeds its size, Add on a full window is refused. The per-follower "
-   "window over a whole leadership is monitored; the inflights stream compares tracker.Inflights with the model and with an abstract window "
+   "window over a whole leadership is monitored; tracker.Inflights is proved to refine a plain list window operation by operation "
+   "(C16_inflights_refines_window: Add panics exactly when the window is full by count or by bytes, FreeLE drops exactly the leading entries with "
+   "index <= to) and every window so reached keeps all but its newest message below the byte limit (C16_window_budget); the inflights stream compares tracker.Inflights with the model and with an abstract window "
    "(count, Full, panic exactly on Add to a full window) over random Add / FreeLE / reset sequences.", [],
    {"pure": {"inflights": {"tags": ["IF"]}},
     "rule_extra": "inflights stream: 4000 (thorough 80000) random sequences of 3..32 operations, sizes 1..16, byte limits 0/10/100"})
@@ -193,7 +198,9 @@ _p("C18", "proof",
    "Proved (Props/C18.v): MemoryStorage refines an abstract log (base + consecutive entries): Term / Entries answer exactly as the abstract log with "
    "ErrCompacted / ErrUnavailable exactly outside the range, size-limited non-empty prefixes; Append (truncate-and-append), Compact, ApplySnapshot, "
    "CreateSnapshot keep it well formed; the unstable tail stays one consecutive log under overwrite-from-index and only matching (index, term) "
-   "acknowledgements drop a prefix (stale/ABA ones are ignored); raftLog.slice returns consecutive entries. The storage stream runs random "
+   "acknowledgements drop a prefix (stale/ABA ones are ignored); raftLog.slice returns consecutive entries, and they are the entries the "
+   "logical log (storage below the unstable offset, then the unstable tail) holds at those indexes (C18_slice_returns_logical_log); an accepted "
+   "persistence acknowledgement leaves the logical log unchanged (C18_ack_keeps_logical_log). The storage stream runs random "
    "Append / Compact / CreateSnapshot / ApplySnapshot sequences with Entries / Term / FirstIndex / LastIndex / Snapshot reads after every step on "
    "MemoryStorage of /repo and on the model (which is proved to answer as the abstract log), errors and panics included.", [],
    {"pure": {"storage": {"tags": ["ST"], "exact": ["ST"]}},
